@@ -434,3 +434,83 @@ def static_sigs(sysc):
                 out.append((path, (hashlib.sha256(data).digest(), 0o100000 | mode, len(data))))
         return out
     return one(sysc["files"]), one(sysc["outs"])
+
+
+# ---------------------------------------------------------------------------------------------
+# the skip decision: the REAL Executor.try_skip_job on a recorded hash chosen by the harness
+# ---------------------------------------------------------------------------------------------
+
+SKIP_TWEAKS = ["same", "inp_first_byte", "inp_last_byte", "inp_after_8", "inp_after_16", "out_first_byte",
+               "out_last_byte", "out_after_8", "out_after_16", "out_middle", "out_none", "swapped", "both_last_byte"]
+
+
+def tweak_hash(sh, tweak):
+    """A recorded StepHash that differs from the current one `sh` in the named way (same = no difference)."""
+    import attrs
+
+    def flip(b, i):
+        return b[:i] + bytes([b[i] ^ 0x01]) + b[i + 1:]
+
+    def after(b, k):
+        return b[:k] + bytes(x ^ 0xA5 for x in b[k:])
+
+    i, o = sh.inp_digest, sh.out_digest
+    if tweak == "same":
+        return sh
+    new = {"inp_first_byte": (flip(i, 0), o), "inp_last_byte": (flip(i, len(i) - 1), o), "inp_after_8": (after(i, 8), o),
+           "inp_after_16": (after(i, 16), o), "out_first_byte": (i, flip(o, 0)), "out_last_byte": (i, flip(o, len(o) - 1)),
+           "out_after_8": (i, after(o, 8)), "out_after_16": (i, after(o, 16)), "out_middle": (i, flip(o, 13)),
+           "out_none": (i, None), "swapped": (o, i), "both_last_byte": (flip(i, 31), flip(o, 31))}[tweak]
+    return attrs.evolve(sh, inp_digest=new[0], out_digest=new[1])
+
+
+async def _skip_async(sysc, tweak):
+    from stepup.core.enums import HashUpdateCause, StepState
+    from stepup.core.executor import Executor, Run
+    from stepup.core.hash import FileHash
+    from stepup.core.step import Step
+
+    from . import wfutil
+
+    _write_files(sysc["files"])
+    _write_files(sysc["outs"])
+    async with wfutil.WF() as w:
+        async with w.db:
+            paths = [f[0] for f in sysc["files"]]
+            unconfirmed = w.wf.declare_static_files(w.plan, paths)
+            w.wf.update_file_hashes({p: FileHash.unknown().refreshed(p) for p in unconfirmed},
+                                    cause=HashUpdateCause.CONFIRMED)
+            w.wf.define_step(w.plan, sysc["command"], inp_paths=paths, env_deps=list(sysc["env_deps"]),
+                             out_paths=[o[0] for o in sysc["outs"]], workdir=sysc["workdir"], shell=sysc["shell"],
+                             env_overrides=dict(sysc["ovrs"]) if sysc["ovrs"] else None)
+            step = list(w.plan.products(Step))[0]
+            job = w.sched._derive_job(step)
+        with patched_environ(sysc["environ"]):
+            ex = Executor(scheduler=w.sched, workflow=w.wf, db=w.db, reporter=Rep(),
+                          explain_rerun=bool(sysc.get("explained")), keep_going=False, live_progress=False,
+                          write_joblog=False, infra_env=dict(sysc["infra"]))
+            cur, new_i, _ = await ex._compute_full_step_hash(Run(step, job_i=job.job_i + 1000))
+            if cur is None:
+                raise RuntimeError(f"_compute_full_step_hash gave no hash: {new_i}")
+            recorded = tweak_hash(cur, tweak)
+            async with w.db:
+                step.set_state(StepState.CHECKING)
+            await ex.try_skip_job(job.job_i, step, job.inp_hashes, job.env_deps, recorded)
+            async with w.db:
+                state = step.get_state()
+                stored = step.get_hash()
+    return {"current": (cur.inp_digest, cur.out_digest), "recorded": (recorded.inp_digest, recorded.out_digest),
+            "skipped": state == StepState.SUCCEEDED, "state": state.name,
+            "stored": None if stored is None else (stored.inp_digest, stored.out_digest)}
+
+
+def run_skip(runner, sysc, tweak):
+    """Run the real try_skip_job; returns the digests and whether the step was skipped."""
+    runner._n += 1
+    d = os.path.join(runner._tmp.name, f"k{runner._n}", "project")
+    os.makedirs(d)
+    os.chdir(d)
+    try:
+        return runner._loop.run_until_complete(asyncio.wait_for(_skip_async(sysc, tweak), 300))
+    finally:
+        os.chdir(runner._cwd)
